@@ -194,12 +194,17 @@ void ec_enc_patch_initial_bits(ec_enc *_this, unsigned _val, unsigned _nbits)
 __CPROVER_requires(ENC_OP_REQUIRES(_this) && _nbits <= 8 && _val < (1U<<_nbits))
 /* documented caller obligation ("at least _nbits bits must have already been encoded using probabilities that are an
    exact power of two"): when nothing was renormalised yet, the interval lies inside one 2^(31-nbits)-aligned cell */
-__CPROVER_requires((_this->offs == 0 && _this->rem < 0 && _this->rng <= (TWO31 >> _nbits)) ==>
+__CPROVER_requires((_this->offs == 0 && _this->rem < 0 && _this->ext == 0 && _this->rng <= (TWO31 >> _nbits)) ==>
       (unsigned long long)(_this->val & ((TWO31 >> _nbits) - 1)) + _this->rng <= (TWO31 >> _nbits))
 __CPROVER_assigns(_this->val, _this->rem, _this->error, __CPROVER_object_upto(_this->buf, 1))
 __CPROVER_ensures(RI_ENC(_this))
 __CPROVER_ensures(_this->rng == __CPROVER_old(_this->rng) && _this->nbits_total == __CPROVER_old(_this->nbits_total))
 __CPROVER_ensures(__CPROVER_old(_this->error) == -1 ==> _this->error == -1)
+/* the first byte is a buffered 0xFF awaiting carry propagation: it cannot be patched, and nothing else may be patched in its place */
+__CPROVER_ensures((__CPROVER_old(_this->offs) == 0 && __CPROVER_old(_this->rem) < 0 && __CPROVER_old(_this->ext) > 0) ==> (_this->error == -1 && _this->val == __CPROVER_old(_this->val)))
+/* which location carries the patch */
+__CPROVER_ensures((__CPROVER_old(_this->offs) > 0 || __CPROVER_old(_this->rem) >= 0) ==> _this->val == __CPROVER_old(_this->val))
+__CPROVER_ensures((__CPROVER_old(_this->offs) == 0 && __CPROVER_old(_this->rem) >= 0 && __CPROVER_old(_this->error) == 0) ==> (_this->error == 0 && (_this->rem >> (8 - _nbits)) == (int)_val) || _nbits == 0)
 ;
 
 void ec_enc_shrink(ec_enc *_this, opus_uint32 _size)
